@@ -1,5 +1,5 @@
 SPECIFICATION Spec
 CONSTANTS
   Files <- FilesT
-INVARIANTS FrameRuleInv FrameRuleWitness RoundTripInv LayoutInv LengthInv TotalityInv TruncInv EmitFile
+INVARIANTS FrameRuleInv FrameRuleWitness RoundTripInv LayoutInv LengthInv TotalityInv TruncInv SpelledInv SpelledWitness QueryTotalInv PlainInv EmitFile
 CHECK_DEADLOCK FALSE
